@@ -3,10 +3,12 @@ package main
 import (
 	"fmt"
 	"reflect"
+	"sync/atomic"
 	"time"
 
 	"google.golang.org/protobuf/proto"
 
+	"github.com/smart-core-os/sc-golang/internal/verifhook"
 	"github.com/smart-core-os/sc-golang/verifharness/cmd/c07/pbgen"
 	"github.com/smart-core-os/sc-golang/verifharness/lib"
 )
@@ -17,14 +19,30 @@ import (
 // delivered after it (Value.Pull reads the current value and registers its listener under one lock).
 // A server that sends the current value first and subscribes afterwards loses an update that commits in
 // between: the stream stays on the stale value. Nothing is asserted about the order or number of messages.
+//
+// kind "gap" makes the interleaving deterministic instead of lucky: pkg/resource has yield points (build tag
+// verif) right before a Pull registers its bus listener (`value.onUpdate.beforeListen`,
+// `coll.onUpdate.beforeListen`). The harness arms a hook there that starts the Update on another goroutine and
+// holds the subscribing goroutine for up to 2 ms (or until the Update has committed). In the code as it is, a
+// seeded Pull holds the read lock at that point, so the Update commits right after the listener exists and is
+// delivered; a server that has already sent the current value and only then subscribes (no lock held) lets
+// the Update commit in the gap and loses it.
+func runGapSession(t triple, sid sessionID, mon *lib.Monitor) (lines, verdicts []string) {
+	return runRaceKind(t, sid, mon, true)
+}
+
 func runRaceSession(t triple, sid sessionID, mon *lib.Monitor) (lines, verdicts []string) {
-	r := seqRand(sid.Seed, sid.Triple+"/race", sid.Seq)
+	return runRaceKind(t, sid, mon, false)
+}
+
+func runRaceKind(t triple, sid sessionID, mon *lib.Monitor, gap bool) (lines, verdicts []string) {
+	r := seqRand(sid.Seed, sid.Triple+"/"+sid.Kind, sid.Seq)
 	s := &session{t: t, r: r, g: pbgen.New(r), ids: map[string]int{}, maskIDs: map[string]int{}, mon: mon, sid: sid}
 	s.g.MaxDepth, s.g.Density = 2, 0.5
 	cl, _ := t.Row.New()
 	s.client = reflect.ValueOf(cl)
 	s.input = func(n int) any {
-		return map[string]any{"kind": "race", "triple": sid.Triple, "seed": sid.Seed, "seq": sid.Seq, "steps": n, "trace": tailTrace(s.trace, 12)}
+		return map[string]any{"kind": sid.Kind, "triple": sid.Triple, "seed": sid.Seed, "seq": sid.Seq, "steps": n, "trace": tailTrace(s.trace, 12)}
 	}
 	defer func() {
 		for _, st := range s.streams {
@@ -41,16 +59,46 @@ func runRaceSession(t triple, sid sessionID, mon *lib.Monitor) (lines, verdicts 
 		req := s.updateReq(payload, newMsg(t.update.Input()).Interface())
 		op := fmt.Sprintf("Pull%s() and concurrently Update%s(%s)", t.X, t.X, txt(payload))
 		reportProgress(progress{Sid: sid, Step: k, Op: op, Trace: tailTrace(s.trace, 8)})
-		// the Update is started first, delayed by a random few microseconds, then the Pull is opened (without
-		// waiting for its seed): the Update commits anywhere from before the Pull's read to after its subscription
-		delay := time.Duration(r.Intn(120)) * time.Microsecond
 		done := make(chan []reflect.Value, 1)
-		go func() {
-			for t0 := time.Now(); time.Since(t0) < delay; {
-			}
-			o, _ := s.call("Update"+t.X, req.Interface())
-			done <- o
-		}()
+		if gap {
+			// the Update is started from the yield point right before the Pull's listener is registered
+			var armed atomic.Bool
+			armed.Store(true)
+			verifhook.Set(func(point string) {
+				if (point != "value.onUpdate.beforeListen" && point != "coll.onUpdate.beforeListen") || !armed.CompareAndSwap(true, false) {
+					return
+				}
+				committed := make(chan struct{})
+				go func() {
+					o, _ := s.call("Update"+t.X, req.Interface())
+					close(committed)
+					done <- o
+				}()
+				select {
+				case <-committed:
+				case <-time.After(2 * time.Millisecond):
+				}
+			})
+			defer verifhook.Set(nil)
+			go func() {
+				// if the server's Pull never reaches a resource Pull (no yield point), still run the Update
+				time.Sleep(50 * time.Millisecond)
+				if armed.CompareAndSwap(true, false) {
+					o, _ := s.call("Update"+t.X, req.Interface())
+					done <- o
+				}
+			}()
+		} else {
+			// the Update is started first, delayed by a random few microseconds, then the Pull is opened (without
+			// waiting for its seed): the Update commits anywhere from before the Pull's read to after its subscription
+			delay := time.Duration(r.Intn(120)) * time.Microsecond
+			go func() {
+				for t0 := time.Now(); time.Since(t0) < delay; {
+				}
+				o, _ := s.call("Update"+t.X, req.Interface())
+				done <- o
+			}()
+		}
 		before := len(s.streams)
 		s.openNoWait()
 		if len(s.streams) == before {
@@ -94,7 +142,10 @@ func runRaceSession(t triple, sid sessionID, mon *lib.Monitor) (lines, verdicts 
 				txt(s.cur), fmt.Sprintf("stream#%d ended on %s", i, txt(st.lastSeen)))
 		}
 		s.obs("quiesce", v)
-		mon.Count("race-trials")
+		mon.Count(sid.Kind + "-trials")
+		if gap {
+			verifhook.Set(nil)
+		}
 		if !s.failed {
 			s.closeStream(i)
 		}
@@ -102,7 +153,7 @@ func runRaceSession(t triple, sid sessionID, mon *lib.Monitor) (lines, verdicts 
 	if !s.failed {
 		s.doGet(nil)
 	}
-	mon.Eval(sid.Triple+"/race"+fmt.Sprint(sid.Seq), true, nil)
+	mon.Eval(sid.Triple+"/"+sid.Kind+fmt.Sprint(sid.Seq), true, nil)
 	return s.lines, s.verdict
 }
 
